@@ -276,7 +276,7 @@ def record_correspondence(tier):
     return len(exp), bad
 
 
-SCOPE_LEVEL = False      # switched on with the xmlscopes request of the model driver
+SCOPE_LEVEL = True       # switched on with the xmlscopes request of the model driver
 
 
 def scope_correspondence(tier, seed):
